@@ -285,6 +285,11 @@ func ruleR8() *Rule {
 						can = true
 					}
 				}
+				// a library routine that is handed nothing that can write (fmt.Errorf formats into a buffer
+				// of its own) does not write to the output
+				if can && !callCarriesWriter(c.p, cs) {
+					can = false
+				}
 				if !can {
 					continue
 				}
@@ -390,4 +395,38 @@ func ruleR16() *Rule {
 			}
 		},
 	}
+}
+
+// callCarriesWriter: the callee is a function of the package (which may reach the output through what it
+// is given), or the receiver / some argument has a Write method.
+func callCarriesWriter(p *Program, cs ssa.CallInstruction) bool {
+	for _, f := range p.calleesAt(cs) {
+		if p.InZap(f) {
+			return true
+		}
+	}
+	hasWrite := func(t types.Type) bool {
+		for _, tt := range []types.Type{t, types.NewPointer(t)} {
+			ms := types.NewMethodSet(tt)
+			for i := 0; i < ms.Len(); i++ {
+				if ms.At(i).Obj().Name() == "Write" {
+					return true
+				}
+			}
+		}
+		return false
+	}
+	cc := cs.Common()
+	if cc.IsInvoke() && hasWrite(cc.Value.Type()) {
+		return true
+	}
+	for _, a := range cc.Args {
+		if hasWrite(a.Type()) {
+			return true
+		}
+		if mi, ok := a.(*ssa.MakeInterface); ok && hasWrite(mi.X.Type()) {
+			return true
+		}
+	}
+	return false
 }
